@@ -117,6 +117,16 @@ def entriesWithServer (c : Cache) (name : String) : List Rec := c.svc.get (lower
 /-- `DNSCache.names` -/
 def names (c : Cache) : List String := c.cache.keys
 
+/-! the event-loop-only twins: separate function bodies in `_cache.py`, each with its own `name.lower()`, returning the live
+dict / a fresh list instead of a copy.  Same contents as the thread-safe readers. -/
+/-- `DNSCache.async_entries_with_name` (the keys of the bucket dict) -/
+def asyncEntriesWithName (c : Cache) (name : String) : List Rec := c.cache.get (lower name)
+/-- `DNSCache.async_entries_with_server` -/
+def asyncEntriesWithServer (c : Cache) (name : String) : List Rec := c.svc.get (lower name)
+/-- `DNSCache.async_all_by_details` -/
+def asyncAllByDetails (c : Cache) (name : String) (type class_ : Nat) : List Rec :=
+  (c.cache.get (lower name)).filter (fun e => decide (type = e.type) && decide (class_ = e.class_))
+
 /-! in-place mutation of cached record objects -/
 
 def mapRecs (f : Rec → Rec) (c : Cache) : Cache := { cache := c.cache.mapRecs f, svc := c.svc.mapRecs f }
@@ -344,5 +354,35 @@ def deliver (lower : String → String) (order : List Nat → List Nat) (c : Cac
     (react1 react2 : Nat → List ListenerAct) : Except PyExc Delivery :=
   deliverWith Gen.Cache.updates_iterates_copy Gen.Cache.complete_iterates_copy Gen.Cache.remove_listener_catches_keyerror
     lower order c ls now recs react1 react2
+
+/-- what the periodic purge (`AsyncEngine._async_cache_cleanup`) does when listeners are registered -/
+structure PurgeDelivery where
+  cache : Cache
+  /-- argument of `async_updates`: `RecordUpdate(record, record)` for every purged record (also when there is none) -/
+  pairs : List (Rec × Option Rec)
+  listeners : List Nat
+  round1 : List Nat
+  round2 : List Nat
+  err : Option PyExc
+  /-- argument of `async_updates_complete` -/
+  notify : Bool
+
+def deliverPurgeWith (copied1 copied2 catches : Bool) (lower : String → String) (order : List Nat → List Nat) (c : Cache) (ls : List Nat)
+    (now : Ms) (react1 react2 : Nat → List ListenerAct) : Except PyExc PurgeDelivery := do
+  -- one reading of the clock: the instant the cache is swept with is the instant the listeners are told (leaf `purge_expire_now`)
+  let out ← expire (Cache.ops lower) c (Gen.Cache.purge_expire_now now)
+  let pairs := out.2.map (fun r => (r, some r))
+  let r1 := notifyRoundWith copied1 catches (order ls) react1
+  match r1.err with
+  | some e => pure { cache := out.1, pairs := pairs, listeners := r1.live, round1 := r1.called, round2 := [], err := some e, notify := false }
+  | none =>
+    let r2 := notifyRoundWith copied2 catches (order r1.live) react2
+    pure { cache := out.1, pairs := pairs, listeners := r2.live, round1 := r1.called, round2 := r2.called, err := r2.err, notify := false }
+
+/-- the code as it is -/
+def deliverPurge (lower : String → String) (order : List Nat → List Nat) (c : Cache) (ls : List Nat) (now : Ms)
+    (react1 react2 : Nat → List ListenerAct) : Except PyExc PurgeDelivery :=
+  deliverPurgeWith Gen.Cache.updates_iterates_copy Gen.Cache.complete_iterates_copy Gen.Cache.remove_listener_catches_keyerror
+    lower order c ls now react1 react2
 
 end Zc
